@@ -69,6 +69,7 @@ func ipamConcurrentScenariosB(tier string, cloud bool, b map[string]int) []*Scen
 			sc = append(sc, s)
 		}
 	}
+	sc = append(sc, famLateRunningEvent(cloud, b)...)
 	// lagging informer cache (one preemption less: four threads)
 	lb := map[string]int{}
 	for k, v := range b {
